@@ -141,3 +141,38 @@ Theorem src_to_tm_tie : forall al tmr, fields_repr (al_cs al) -> to_tm al = OK t
   st_ToTM (al_cs al) (al_off al) (al_dst al) (al_abbr al) = OK tmr.
 Proof. exact st_ToTM_tie. Qed.
 Print Assumptions src_to_tm_tie.
+
+From CCTZ Require Import ParseImpl Source64 Source64MoreProofs SourceFmtWeek SourceFmtWeekProofs SourceFmtLoopSrcProofs.
+(* ToWeek / FromWeek AS CLANG READS THEM NOW (SourceFmtWeek.v: they call the source-derived civil_time constructors,
+   conversions, difference and next/prev_weekday of Source64.v), and format()'s main loop with the source-derived ToWeek in
+   place of the oracle *)
+Theorem src_to_week_tie : forall cd ws d p w,
+  construct64 3 (Z.rem (fy cd) 400) (fm cd) (fd cd) 0 0 0 = OK d ->
+  prev_weekday64 (align64 5 d) ws = OK p ->
+  fields_repr d -> fields_repr p ->
+  to_week cd ws = OK w -> int32 w ->
+  sw_ToWeek s64_fuel cd ws = OK w.
+Proof. exact SourceFmtWeekProofs.sw_ToWeek_tie. Qed.
+Print Assumptions src_to_week_tie.
+Theorem src_from_week_tie : forall week_num ws year tm y cd0 cdm cdn w7 cd o,
+  construct64 5 (Z.rem year 400) 1 1 0 0 0 = OK y ->
+  prev_weekday64 (align64 3 y) ws = OK cd0 ->
+  minus64 3 cd0 1 = OK cdm ->
+  next_weekday64 cdm (from_tm_wday (tm_wday tm)) = OK cdn ->
+  mul32 week_num 7 = OK w7 ->
+  plus64 3 cdn w7 = OK cd ->
+  int64 (fy y) -> fields_repr cdm -> fields_repr cd -> 0 <= tm_wday tm <= 6 ->
+  from_week week_num ws year tm = OK o ->
+  sw_FromWeek s64_fuel week_num ws year (tm_sec tm) (tm_min tm) (tm_hour tm) (tm_mday tm) (tm_mon tm) (tm_year tm)
+    (tm_wday tm) (tm_yday tm) (tm_isdst tm) = OK (from_week_result year tm o).
+Proof. exact SourceFmtWeekProofs.sw_FromWeek_tie. Qed.
+Print Assumptions src_from_week_tie.
+Theorem src_format_loop_week_tie : forall strftime_o al tm fs unix fmt r fuel,
+  to_tm al = OK tm ->
+  format_impl strftime_o fmt al fs unix = OK r ->
+  bytes_ok fmt -> ~ In 0 fmt -> ~ In 0 (al_abbr al) -> 0 <= fs < 10 ^ 15 -> blen fmt < 2 ^ 62 ->
+  (3 * length fmt + 30 <= fuel)%nat ->
+  week_repr (al_cs al) ->
+  sl_format (format_tm strftime_o) src_ToWeek fuel fmt fs (al_cs al) (al_off al) (al_abbr al) tm unix = OK r.
+Proof. exact SourceFmtLoopSrcProofs.sl_format_src_tie. Qed.
+Print Assumptions src_format_loop_week_tie.
